@@ -112,6 +112,7 @@ func staticReachIDs(fns []*ssa.Function) map[string]bool {
 }
 
 func cmdCheck(args []string) int {
+	startMemWatchdog()
 	fs := flag.NewFlagSet("check", flag.ExitOnError)
 	tier := fs.String("tier", envOr("VERIF_TIER", "quick"), "quick|thorough")
 	workers := fs.Int("workers", runtime.NumCPU(), "parallel workers")
@@ -157,7 +158,7 @@ func cmdCheck(args []string) int {
 	// bounds finish well inside it
 	budget := spec.DeadlineS
 	if budget == 0 {
-		budget = 900
+		budget = 1500
 		if *tier == "thorough" {
 			budget = 7200
 		}
